@@ -3241,13 +3241,26 @@ class Interp:
                 for t, v in pairs:
                     if stores.get(t.id) == 1 and t.id not in given and chain(v):
                         table[t.id] = v
+                    elif stores.get(t.id) == 1 and t.id not in given and \
+                            isinstance(v, ast.Call):
+                        # a record (typing.NamedTuple) of such chains: `loan.supply` is the
+                        # chain given for the field `supply`
+                        from . import rules
+                        display = rules._record_display(v, fn)
+                        if display is not None:
+                            for field, item in zip(display.record_fields, display.elts):
+                                if chain(item) or (isinstance(item, ast.Name)
+                                                   and item.id in params):
+                                    table['%s.%s' % (t.id, field)] = item
         self._pure[key] = ('table', table)
         return table
 
     def _canon_txt(self, expr, fr: DynFrame) -> str:
         aliases = self._aliases(fr.fn)
-        if not aliases or not any(isinstance(n, ast.Name) and n.id in aliases
-                                  for n in ast.walk(expr)):
+        if not aliases or not any(
+                isinstance(n, ast.Name) and (n.id in aliases or any(
+                    key.startswith(n.id + '.') for key in aliases))
+                for n in ast.walk(expr)):
             return _txt(expr)
         import copy
 
@@ -3256,6 +3269,12 @@ class Interp:
                 if isinstance(node.ctx, ast.Load) and node.id in aliases:
                     return copy.deepcopy(aliases[node.id])
                 return node
+
+            def visit_Attribute(self, node):
+                if isinstance(node.value, ast.Name) and isinstance(node.ctx, ast.Load) and \
+                        '%s.%s' % (node.value.id, node.attr) in aliases:
+                    return copy.deepcopy(aliases['%s.%s' % (node.value.id, node.attr)])
+                return self.generic_visit(node)
         return _txt(Sub().visit(copy.deepcopy(expr)))
 
     def atom_key(self, expr, fr: DynFrame):
